@@ -538,6 +538,14 @@ def _causes(case, obs):
             seg_end = obs.calls[i["seg"]].get("hook_end", len(obs.hook)) if i["seg"] < len(obs.calls) else len(obs.hook)
             if a >= seg_end and obs.plog.returned:
                 continue  # arrived after the plan had finished
+            took_effect = any(
+                s_[0] in ("pausing", "suspending") and m_["total"] >= i["total"] for s_, m_ in zip(obs.states, obs.state_meta)
+            )
+            if i["inj"]["do"] in ("pause", "suspend") and not took_effect and obs.plog.returned:
+                # the request was queued while the last message was executing and its coroutine only ran once the
+                # plan had returned: the engine ignores it (nothing left to pause).  Whether ignoring a request
+                # in the middle of a plan is right is C08's / C10's question, not this property's.
+                continue
             if cleared and cleared[0] < b + 1 and i["inj"]["do"] == "defer":
                 causes.append(("ambiguous", a, i))  # deferred pause after clear_checkpoint: F3 territory (C08)
                 continue
